@@ -40,7 +40,7 @@ C19_INST = {"files": [
 
 CHECKS = {
     "C01": {
-        "bounds": {"quick": "tokenizer: all byte strings <= 2 bytes (all values), <= 3 (lexical alphabet), <= 5 (comment alphabet); low-level parser: every token sequence of <= 2 symbolic tokens drawn from a 150-row lexeme table (statement/clause keywords, operators, literals, and rows no tokenizer produces: type-less, empty literal, mismatched literal, unknown type) at statement start and after SELECT / SELECT a FROM / SELECT a FROM t WHERE, with and without a trailing EOF, strict x dialect symbolic; truncations: every prefix (cut at every token) of a 43-statement corpus covering each parser production (MATCH..AGAINST, CASE/CAST, window frames, ROLLUP/CUBE/GROUPING SETS, FETCH/FOR UPDATE, JSON/array operators, joins, sub-query predicates, SUBSTRING/EXTRACT/POSITION, recursive CTE, set operations, INSERT..ON CONFLICT/ON DUPLICATE KEY, REPLACE, UPDATE, DELETE, MERGE, CREATE TABLE/INDEX/VIEW/MATERIALIZED VIEW, REFRESH, ALTER TABLE/ROLE/POLICY, DROP, TRUNCATE, SHOW, DESCRIBE, TOP, DISTINCT ON/WINDOW, WITHIN GROUP, casts and tuples), with and without EOF, dialect symbolic; accepted trees are serialised with AST.SQL; linting: linter.LintString with the CLI's ten default rules plus every fixable rule's Fix on every text of <= 3 words from a 20-word table (clause keywords, names, punctuation, comment, newline), alone and after SELECT a FROM t; size sweep: gosqlx.Parse / Validate / Format / ParseWithRecovery / ExtractMetadata on statements whose one variable-size element (identifier, back-quoted and double-quoted identifier, string, number, comments, table name with alias: 0..130 characters; parenthesis nest and select list: 0..39) has a symbolic size",
+        "bounds": {"quick": "tokenizer: all byte strings <= 2 bytes (all values), <= 3 (lexical alphabet), <= 5 (comment alphabet); low-level parser: every token sequence of <= 2 symbolic tokens drawn from a 150-row lexeme table (statement/clause keywords, operators, literals, and rows no tokenizer produces: type-less, empty literal, mismatched literal, unknown type) at statement start and after SELECT / SELECT a FROM / SELECT a FROM t WHERE, with and without a trailing EOF, strict x dialect symbolic; truncations: every prefix (cut at every token) of a 47-statement corpus covering each parser production (MATCH..AGAINST, CASE/CAST, window frames, ROLLUP/CUBE/GROUPING SETS, FETCH/FOR UPDATE, JSON/array operators, joins, sub-query predicates, SUBSTRING/EXTRACT/POSITION, recursive CTE, set operations, INSERT..ON CONFLICT/ON DUPLICATE KEY, REPLACE, UPDATE, DELETE, MERGE, CREATE TABLE/INDEX/VIEW/MATERIALIZED VIEW, REFRESH, ALTER TABLE/ROLE/POLICY, DROP, TRUNCATE, SHOW, DESCRIBE, TOP, DISTINCT ON/WINDOW, WITHIN GROUP, casts and tuples), with and without EOF, dialect symbolic; accepted trees are serialised with AST.SQL; linting: linter.LintString with the CLI's ten default rules plus every fixable rule's Fix on every text of <= 3 words from a 20-word table (clause keywords, names, punctuation, comment, newline), alone and after SELECT a FROM t; size sweep: gosqlx.Parse / Validate / Format / ParseWithRecovery / ExtractMetadata on statements whose one variable-size element (identifier, back-quoted and double-quoted identifier, string, number, comments, table name with alias: 0..130 characters; parenthesis nest and select list: 0..39) has a symbolic size",
                    "thorough": "linting <= 4 words; tokenizer <= 3 bytes all values / <= 4 lexical / <= 7 comment; parser <= 3 symbolic tokens in each context; every truncation continued by one symbolic token"},
         "outside": "inputs longer than the bounds; formatting / extraction / scanning entry points (covered at kernel strength by C06, C14-C16); the Go runtime; regex paths on symbolic text",
         "assumptions": ["termination = every path stays inside the instruction and call-depth budget (unwinding assertion); exceeding it is reported as a candidate hang and replayed natively under a timeout"],
@@ -97,11 +97,12 @@ CHECKS = {
         ],
     },
     "C08": {
-        "bounds": {"quick": "inductive: (1) from any parser state satisfying I (depth=0, ctx=nil; tokens, cursor, current token, position mapping of length 0..2 arbitrary; strict/dialect symbolic) every entry point on every <= 3-token stream re-establishes I and keeps the configuration; (2) from any such state the outcome (verdict, error code, error location, tree) of every entry point on <= 3 tokens (statement start) / <= 2 tokens after SELECT equals a fresh instance's; (3) PutParser+GetParser / Reset give back an instance equal to a new one, Release clears per-parse state; (4) tokenizer instances: after tokenizing one of 5 earlier texts (multi-line, failing, with comments) - reused directly, after Reset, or through the pool - every input <= 3 bytes over {$ a \\n \" \\\\ ' space} gives the tokens, spans, comments and error (code, message, location) of a fresh instance",
+        "bounds": {"quick": "inductive: (1) from any parser state satisfying I (depth=0, ctx=nil; tokens, cursor, current token, position mapping of length 0..2 arbitrary; strict/dialect symbolic) every entry point on every <= 3-token stream re-establishes I and keeps the configuration; (2) from any such state the outcome (verdict, error code, error location, tree) of every entry point on <= 3 tokens (statement start) / <= 2 tokens after SELECT equals a fresh instance's; (3) PutParser+GetParser / Reset give back an instance equal to a new one, Release clears per-parse state; (4) tokenizer instances: after tokenizing one of 5 earlier texts (multi-line, failing, with comments) - reused directly, after Reset, or through the pool - every input <= 3 bytes over {$ a \\n \" \\\\ ' space} gives the tokens, spans, comments and error (code, message, location) of a fresh instance; (5) the nesting counter is zero after Parse returns, for every truncation of the 47-statement corpus (sub-queries that start with WITH, nested derived tables, ...)",
                    "thorough": "(2) with <= 4 tokens"},
         "outside": "tokenizer histories longer than one earlier call; histories that break I through data races or through callers writing unexported fields",
         "assumptions": ["sync.Pool is modelled as a LIFO stack (a single-P process without GC)"],
         "runs": parruns(["VxC08_Invariant2", "VxC08_DepthRestored", "VxC08_Indep_Start3", "VxC08_Indep_Select2", "VxC08_Pool"], ["VxC08_Invariant", "VxC08_DepthRestored", "VxC08_Indep_Start4", "VxC08_Indep_Select3", "VxC08_Pool"], ["C08.inv_depth", "C08.same_tree", "C08.same_location"]) + [
+            {"pkg": PAR, "harness": "VxSoup_Cut0", "tiers": ["quick", "thorough"], "args": {"max-steps": 400000}, "expect_asserts": ["C08.depth_zero_after_parse"], "budget_judged_by": "C01"},
             {"pkg": TOK, "harness": "VxC08_TokReuse3", "tiers": ["quick"], "expect_asserts": ["C08.tok_same_tokens", "C08.tok_same_spans"]},
             {"pkg": TOK, "harness": "VxC08_TokReuse4", "tiers": ["thorough"], "expect_asserts": ["C08.tok_same_tokens", "C08.tok_same_spans"]}],
     },
@@ -113,8 +114,8 @@ CHECKS = {
         "runs": [
             {"pkg": "pkg/sql/ast", "harness": "VxC09_Clean", "generate": "c09_pools", "expect_asserts": ["C09.clean"]},
             {"pkg": "pkg/sql/ast", "harness": "VxC09_ASTContainer", "expect_asserts": ["C09.clean_container"]},
-            {"pkg": "pkg/gosqlx", "harness": "VxC09_History3", "tiers": ["quick"], "args": {"replace": "context.WithTimeout=VxTimeoutCtx"}},
-            {"pkg": "pkg/gosqlx", "harness": "VxC09_History4", "tiers": ["thorough"], "args": {"replace": "context.WithTimeout=VxTimeoutCtx"}},
+            {"pkg": "pkg/gosqlx", "harness": "VxC09_History3", "tiers": ["quick"], "args": {"replace": "context.WithTimeout=VxTimeoutCtx"}, "generic": ["pool_double_put"]},
+            {"pkg": "pkg/gosqlx", "harness": "VxC09_History4", "tiers": ["thorough"], "args": {"replace": "context.WithTimeout=VxTimeoutCtx"}, "generic": ["pool_double_put"]},
             {"pkg": TOK, "harness": "VxC09_TokAlias3", "tiers": ["quick"]},
             {"pkg": TOK, "harness": "VxC09_TokAliasPool3", "tiers": ["quick", "thorough"]},
             {"pkg": TOK, "harness": "VxC09_TokAlias4", "tiers": ["thorough"]},
@@ -228,17 +229,17 @@ CHECKS = {
                    "thorough": "<= 3-token continuations"},
         "outside": "TokenizeContext polling (every 100 tokens: not reachable within the byte bounds; its pre-check is covered by VxC11_Tok); gosqlx.ParseWithContext adds only tokenisation in front of ParseContext",
         "assumptions": ["the context is monotone: once done it stays done with the same error"],
-        "runs": parruns(["VxC11_Nested", "VxC11_Returning", "VxC11_Where2", "VxC11_Select2"], ["VxC11_Nested", "VxC11_Returning", "VxC11_Where3", "VxC11_Select3"], ["C11.is_ctx_err", "C11.same_tree", "C11.residue_depth"]),
+        "runs": parruns(["VxC11_Nested", "VxC11_Returning", "VxC11_Where2", "VxC11_Select2"], ["VxC11_Nested", "VxC11_Returning", "VxC11_Where3", "VxC11_Select3"], ["C11.is_ctx_err", "C11.same_tree", "C11.residue_depth"], extra={"generic": ["pool_double_put"]}),
     },
     "C12": {
         "bounds": {"quick": "token soup: every EOF-terminated stream of <= 3 symbolic tokens (150-row table) at statement start and after 'SELECT a FROM t ;' — termination (unwinding budget) and errors-iff-strict-fails; scripts S1;S2 where each Si is one of 8 valid statements (SELECT x2, SHOW - whose first token is not a synchronisation keyword -, DELETE, DROP, TRUNCATE, CREATE TABLE, INSERT) under a symbolic corruption (none / delete / duplicate / replace by one of 12 tokens / truncate, position symbolic), at most one corrupted; twins: the same corrupted statement twice, optionally around a good one: two errors, exactly the good statements, no nil entry",
-                   "thorough": "<= 4 soup tokens; scripts of 2 and 3 statements with every statement independently corrupted"},
+                   "thorough": "<= 4 soup tokens; scripts of 2 statements with both independently corrupted; scripts of 3 statements with one corrupted"},
         "outside": "longer scripts; corruptions that introduce a statement-starting keyword after the first token (excluded by the property itself)",
         "assumptions": ["a statement is 'well-formed' iff strict parsing of it alone (with its terminating semicolon) succeeds with exactly one statement"],
-        "runs": parruns(["VxC12_Soup_Start3", "VxC12_Script2q", "VxC12_Twins"], ["VxC12_Soup_Start4", "VxC12_Soup_Semi4", "VxC12_Script2", "VxC12_Script3", "VxC12_Soup_Semi3", "VxC12_Twins"], ["C12.iff", "C12.no_loss", "C12.one_error_per_malformed", "C12.exactly_the_good"], generic=["unwind"]),
+        "runs": parruns(["VxC12_Soup_Start3", "VxC12_Script2q", "VxC12_Twins"], ["VxC12_Soup_Start4", "VxC12_Soup_Semi4", "VxC12_Script2", "VxC12_Script3q", "VxC12_Soup_Semi3", "VxC12_Twins"], ["C12.iff", "C12.no_loss", "C12.one_error_per_malformed", "C12.exactly_the_good"], generic=["unwind"]),
     },
     "C13": {
-        "bounds": {"quick": "every failing path of the C01 runs (same bounds, including every truncation of the 43-statement corpus): tokenizer errors and low-level parser errors; reproducibility: a reused tokenizer instance reports the same code, message and location as a fresh one (inputs <= 3 bytes over the failing-literal alphabet after 5 earlier texts)", "thorough": "same as C01 thorough"},
+        "bounds": {"quick": "every failing path of the C01 runs (same bounds, including every truncation of the 47-statement corpus): tokenizer errors and low-level parser errors; reproducibility: a reused tokenizer instance reports the same code, message and location as a fresh one (inputs <= 3 bytes over the failing-literal alphabet after 5 earlier texts)", "thorough": "same as C01 thorough"},
         "outside": "wording of messages and hints; errors of the gosqlx wrappers (checked by C07 harness); reproducibility across Go map iteration order and across parser instance histories (the latter is C08's independence claim)",
         "assumptions": ["documented code families: E1xxx tokenizer, E2xxx parser"],
         "runs": tokruns(["C13.tok_structured", "C13.tok_family"], ["VxC04_All2", "VxC04_Lex3"], ["VxC04_All3", "VxC04_Lex4"]) + parruns(["VxSoup_Start2", "VxSoup_Select2", "VxSoup_From2", "VxSoup_Where2", "VxSoup_Cut0"], ["VxSoup_Cut1", "VxSoup_Start3", "VxSoup_Select3", "VxSoup_From3", "VxSoup_Where3"], ["C13.structured", "C13.family"]) + [
@@ -255,7 +256,7 @@ CHECKS = {
         "runs": tokruns(["C04.eof_last", "C04.kind", "C04.value"], ["VxC04_All2", "VxC04_Lex3", "VxC04_Cmt5", "VxC04_Words2"], ["VxC04_All3", "VxC04_Lex4", "VxC04_Cmt7", "VxC04_Words2"]),
     },
     "C05": {
-        "bounds": {"quick": "token/comment positions for all byte strings of length <= 2 (all bytes), <= 3 (lexical alphabet), <= 5 (comment alphabet), <= 4 (position alphabet {a 1 ' - / * space tab \\n \\r}); the word-slot inputs of C04 (multi-word keywords across spaces and newlines); parser side: the converter's position mapping is index-aligned with the parser tokens and Parser.currentLocation reads the right entry, for every sequence of <= 3 symbolic tokenizer tokens from a 27-row table that includes every multi-word keyword; error blame: every accepted statement of the 43-statement truncation corpus corrupted at every token (cut, deleted, or replaced by one of ) SELECT x ,), dialect symbolic: a located parser error lies at the start of a token, and when its message names the offending token (got X / unexpected token: X) that is the token starting there",
+        "bounds": {"quick": "token/comment positions for all byte strings of length <= 2 (all bytes), <= 3 (lexical alphabet), <= 5 (comment alphabet), <= 4 (position alphabet {a 1 ' - / * space tab \\n \\r}); the word-slot inputs of C04 (multi-word keywords across spaces and newlines); parser side: the converter's position mapping is index-aligned with the parser tokens and Parser.currentLocation reads the right entry, for every sequence of <= 3 symbolic tokenizer tokens from a 27-row table that includes every multi-word keyword; error blame: every accepted statement of the 47-statement truncation corpus corrupted at every token (cut, deleted, or replaced by one of ) SELECT x ,), dialect symbolic: a located parser error lies at the start of a token, and when its message names the offending token (got X / unexpected token: X) that is the token starting there",
                    "thorough": "length <= 3 all bytes; <= 4 lexical; <= 7 comment; <= 5 position alphabet; mapping for <= 4 tokens"},
         "outside": "exact columns are asserted for tab-free ASCII input only (tabs/multi-byte: ordering and containment only); whether the parser blames the most helpful token (backtracking productions may blame an earlier one); only that the location it reports is where the token it names starts",
         "assumptions": ["expected positions are computed from the reference lexer's byte offsets"],
